@@ -1,6 +1,6 @@
 (** C06 — Indicator signals fire exactly under their documented conditions. *)
 From Yata Require Import Base.Prelude Base.Num Base.NumR Core.Window Core.Candle Core.Action
-  Spec.Hist Methods.Basic Methods.Select Indicators.Common Indicators.Set1 Indicators.Set3 Proofs.Detectors Proofs.SignalProofs Proofs.SignalProofs2.
+  Spec.Hist Methods.Basic Methods.Select Indicators.Common Indicators.Set1 Indicators.Set2 Indicators.Set3 Indicators.Set4 Indicators.Set5 Proofs.Detectors Proofs.SignalProofs Proofs.SignalProofs2 Proofs.SignalProofs3.
 Open Scope Z_scope.
 
 Section C06.
@@ -23,6 +23,115 @@ Theorem C06_macd_signals (s0 : macd_st (N := NumR)) cs k :
     [cross_def (hget (f0, f0) (rev (ps ++ [p])));
      cross_def (hget (f0, f0) (rev (map (fun q => (fst q, f0)) ps ++ [(fst p, f0)])))].
 Proof. exact (macd_signals_correct s0 cs k). Qed.
+(** ---- signals that are crossings of the indicator's OWN returned values: after ANY stream [cs], at the step that consumes
+    [k], the signal is the definitional crossing (C14) of the history of pairs formed from every result returned so far
+    ([pair_hist next s0 cs k p0 pf]: newest first, continued into the past by the construction pair [p0]).
+    [v0_zero r] = (value 0, 0), [v0_v1 r] = (value 0, value 1).  Proved once generically ([det_output]) and instantiated. *)
+Theorem C06_detector_generic {S D : Type} (next : S -> candle (N := NumR) -> S * iresult (N := NumR))
+  (dnext : D -> R * R -> D * action) (ddef : (nat -> R * R) -> action) (dget : S -> D) (pf : iresult (N := NumR) -> R * R)
+  (Good : S -> Prop) :
+  (forall s k, Good s -> Good (fst (next s k))) ->
+  (forall s k, Good s -> dget (fst (next s k)) = fst (dnext (dget s) (pf (snd (next s k))))) ->
+  forall s0 p0, Good s0 ->
+  (forall ps p, snd (dnext (steps dnext (dget s0) ps) p) = ddef (hget p0 (rev (ps ++ [p])))) ->
+  forall cs k, snd (dnext (dget (steps next s0 cs)) (pf (snd (next (steps next s0 cs) k)))) =
+               ddef (hget p0 (rev (map pf (run next s0 (cs ++ [k]))))).
+Proof. exact (det_output next dnext ddef dget pf Good). Qed.
+Theorem C06_elders_force_index (s0 : efi_st (N := NumR)) cs k : ef_cross s0 = (f0, f0) ->
+  sigs (snd (efi_next (steps efi_next s0 cs) k)) = [cross_def (pair_hist efi_next s0 cs k (f0, f0) v0_zero)].
+Proof. exact (efi_signal_correct s0 cs k). Qed.
+Theorem C06_chaikin_money_flow (s0 : cmf_st (N := NumR)) cs k : cf_cross s0 = (f0, f0) ->
+  sigs (snd (cmf_next (steps cmf_next s0 cs) k)) = [cross_def (pair_hist cmf_next s0 cs k (f0, f0) v0_zero)].
+Proof. exact (cmf_signal_correct s0 cs k). Qed.
+Theorem C06_ease_of_movement (s0 : eom_st (N := NumR)) cs k : eo_cross s0 = (f0, f0) ->
+  sigs (snd (eom_next (steps eom_next s0 cs) k)) = [cross_def (pair_hist eom_next s0 cs k (f0, f0) v0_zero)].
+Proof. exact (eom_signal_correct s0 cs k). Qed.
+Theorem C06_chaikin_oscillator (s0 : co_st (N := NumR)) cs k : co_cross s0 = (f0, f0) ->
+  sigs (snd (co_next (steps co_next s0 cs) k)) = [cross_def (pair_hist co_next s0 cs k (f0, f0) v0_zero)].
+Proof. exact (chaikin_oscillator_signal_correct s0 cs k). Qed.
+Theorem C06_know_sure_thing (s0 : kst_st (N := NumR)) cs k : ks_cross s0 = (f0, f0) ->
+  sigs (snd (kst_next (steps kst_next s0 cs) k)) = [cross_def (pair_hist kst_next s0 cs k (f0, f0) v0_v1)].
+Proof. exact (kst_signal_correct s0 cs k). Qed.
+Theorem C06_klinger_volume_oscillator (s0 : kvo_st (N := NumR)) cs k : kv_c1 s0 = (f0, f0) -> kv_c2 s0 = (f0, f0) ->
+  sigs (snd (kvo_next (steps kvo_next s0 cs) k)) =
+  [cross_def (pair_hist kvo_next s0 cs k (f0, f0) v0_zero); cross_def (pair_hist kvo_next s0 cs k (f0, f0) v0_v1)].
+Proof. exact (kvo_signals_correct s0 cs k). Qed.
+Theorem C06_coppock_curve (s0 : cop_st (N := NumR)) cs k : cp_c1 s0 = (f0, f0) -> cp_c2 s0 = (f0, f0) ->
+  let st := steps cop_next s0 cs in let r := snd (cop_next st k) in
+  sigs r = [cross_def (pair_hist cop_next s0 cs k (f0, f0) v0_zero); snd (reversal_next (cp_pivot st) (vals r 0));
+            cross_def (pair_hist cop_next s0 cs k (f0, f0) v0_v1)].
+Proof. exact (coppock_signals_correct s0 cs k). Qed.
+Theorem C06_trix (s0 : trix_st (N := NumR)) (v : R) cs k :
+  tx_c1 s0 = (cross_new (v, v), cross_new (v, v)) -> tx_c2 s0 = (cross_new (v, v), cross_new (v, v)) ->
+  let st := steps trix_next s0 cs in let r := snd (trix_next st k) in
+  sigs r = [snd (reversal_next (tx_rev st) (vals r 0)); cross_def (pair_hist trix_next s0 cs k (v, v) v0_v1);
+            cross_def (pair_hist trix_next s0 cs k (v, v) v0_zero)].
+Proof. exact (trix_signals_correct s0 v cs k). Qed.
+Theorem C06_relative_vigor_index (s0 : rvi_st (N := NumR)) cs k : rv_cross s0 = (f0, f0) ->
+  let r := snd (rvi_next (steps rvi_next s0 cs) k) in
+  let s1 := a_analog (cross_def (pair_hist rvi_next s0 cs k (f0, f0) v0_v1)) in let z := rv_zone s0 in
+  sigs r = [a_from_i8 s1;
+            a_from_i8 (b2z ((s1 <? 0) && fgt (vals r 0) z && fgt (vals r 1) z) - b2z ((0 <? s1) && flt (vals r 0) (fneg z) && flt (vals r 1) (fneg z)))].
+Proof. exact (rvi_signals_correct s0 cs k). Qed.
+Theorem C06_smi_ergodic (s0 : smi_st (N := NumR)) cs k : sm_cross s0 = (f0, f0) ->
+  let r := snd (smi_next (steps smi_next s0 cs) k) in
+  let x := a_analog (cross_def (pair_hist smi_next s0 cs k (f0, f0) v0_v1)) in
+  sigs r = [a_from_i8 (b2z ((0 <? x) && flt (vals r 1) (fneg (sm_zone s0))) - b2z ((x <? 0) && fgt (vals r 1) (sm_zone s0)))].
+Proof. exact (smi_signal_correct s0 cs k). Qed.
+Theorem C06_awesome_oscillator_zero_cross (s0 : ao_st (N := NumR)) cs k : ao_cross s0 = (f0, f0) ->
+  nth 1 (sigs (snd (ao_next (steps ao_next s0 cs) k))) ANone = cross_def (pair_hist ao_next s0 cs k (f0, f0) v0_zero).
+Proof. exact (ao_zero_cross_signal_correct s0 cs k). Qed.
+Theorem C06_chande_momentum_oscillator (s0 : cmo_st (N := NumR)) cs k : cm_cu s0 = f0 -> cm_ca s0 = f0 ->
+  let z := cm_zone s0 in
+  sigs (snd (cmo_next (steps cmo_next s0 cs) k)) =
+  [a_sub (cross_under_def (pair_hist cmo_next s0 cs k (f0, f0) (vi_const 0 (fneg z))))
+         (cross_above_def (pair_hist cmo_next s0 cs k (f0, f0) (vi_const 0 z)))].
+Proof. exact (cmo_signal_correct s0 cs k). Qed.
+(** as coded: buy under the lower band, sell above the upper band - the documentation says the opposite (KF-C06-keltner-polarity) *)
+Theorem C06_keltner_as_coded (s0 : kelt_st (N := NumR)) cs k : kl_cu s0 = f0 -> kl_ca s0 = f0 ->
+  sigs (snd (kelt_next (steps kelt_next s0 cs) k)) =
+  [a_sub (cross_under_def (pair_hist kelt_next s0 cs k (f0, f0) (vi_vj 0 2)))
+         (cross_above_def (pair_hist kelt_next s0 cs k (f0, f0) (vi_vj 0 1)))].
+Proof. exact (keltner_signal_correct s0 cs k). Qed.
+Theorem C06_true_strength_index (s0 : tsii_st (N := NumR)) cs k : ti_cu s0 = f0 -> ti_ca s0 = f0 -> ti_c1 s0 = (f0, f0) -> ti_c2 s0 = (f0, f0) ->
+  let z := ti_zone s0 in
+  sigs (snd (tsii_next (steps tsii_next s0 cs) k)) =
+  [a_sub (cross_under_def (pair_hist tsii_next s0 cs k (f0, f0) (vi_const 0 (fneg z))))
+         (cross_above_def (pair_hist tsii_next s0 cs k (f0, f0) (vi_const 0 z)));
+   cross_def (pair_hist tsii_next s0 cs k (f0, f0) v0_zero); cross_def (pair_hist tsii_next s0 cs k (f0, f0) v0_v1)].
+Proof. exact (tsi_signals_correct s0 cs k). Qed.
+Theorem C06_aroon_cross (s0 : aroon_st (N := NumR)) cs k : ar_cross s0 = (f0, f0) ->
+  nth 0 (sigs (snd (aroon_next (steps aroon_next s0 cs) k))) ANone = cross_def (pair_hist aroon_next s0 cs k (f0, f0) v0_v1).
+Proof. exact (aroon_cross_signal_correct s0 cs k). Qed.
+Theorem C06_stochastic_oscillator (s0 : sto_st (N := NumR)) cs k :
+  so_ca1 s0 = f0 -> so_cu1 s0 = f0 -> so_ca2 s0 = f0 -> so_cu2 s0 = f0 -> so_cross s0 = (f0, f0) ->
+  let z := sc_zone (so_cfg s0) in let u := so_upper s0 in
+  sigs (snd (sto_next (steps sto_next s0 cs) k)) =
+  [a_sub (cross_above_def (pair_hist sto_next s0 cs k (f0, f0) (vi_const 0 z))) (cross_under_def (pair_hist sto_next s0 cs k (f0, f0) (vi_const 0 u)));
+   a_sub (cross_above_def (pair_hist sto_next s0 cs k (f0, f0) (vi_const 1 z))) (cross_under_def (pair_hist sto_next s0 cs k (f0, f0) (vi_const 1 u)));
+   cross_def (pair_hist sto_next s0 cs k (f0, f0) v0_v1)].
+Proof. exact (stochastic_signals_correct s0 cs k). Qed.
+Theorem C06_money_flow_index (s0 : mfi_st (N := NumR)) cs k : mf_cu s0 = (f0, f0) -> mf_cl s0 = (f0, f0) ->
+  let xu := a_to_i8 (cross_def (pair_hist mfi_next s0 cs k (f0, f0) (vi_vj 1 0))) in
+  let xl := a_to_i8 (cross_def (pair_hist mfi_next s0 cs k (f0, f0) (vi_vj 1 2))) in
+  sigs (snd (mfi_next (steps mfi_next s0 cs) k)) = [a_from_i8 (b2z (xl <? 0) - b2z (0 <? xu)); a_from_i8 (b2z (0 <? xl) - b2z (xu <? 0))].
+Proof. exact (mfi_signals_correct s0 cs k). Qed.
+Theorem C06_relative_strength_index (s0 : rsi_st (N := NumR)) cs k :
+  let z := rc_zone (rs_cfg s0) in let half := flit 1 2 in
+  rs_cross_lower s0 = (cross_new (half, z), cross_new (half, z)) ->
+  rs_cross_upper s0 = (cross_new (half, fsub f1 z), cross_new (half, fsub f1 z)) ->
+  let oversold := a_analog (cross_def (pair_hist rsi_next s0 cs k (half, z) (vi_const 0 z))) in
+  let overbought := a_analog (cross_def (pair_hist rsi_next s0 cs k (half, fsub f1 z) (vi_const 0 (fsub f1 z)))) in
+  sigs (snd (rsi_next (steps rsi_next s0 cs) k)) =
+  [a_from_i8 (b2z (oversold <? 0) - b2z (0 <? overbought)); a_from_i8 (b2z (0 <? oversold) - b2z (overbought <? 0))].
+Proof. exact (rsi_signals_correct s0 cs k). Qed.
+(** as coded (the documentation states the opposite polarity: KF-C06-tsx-signals) *)
+Theorem C06_trend_strength_cross_as_coded (s0 : tsx_st (N := NumR)) cs k :
+  let z := tz_zone s0 in tz_cu s0 = cross_new (f0, z) -> tz_ca s0 = cross_new (f0, fneg z) ->
+  nth 0 (sigs (snd (tsx_next (steps tsx_next s0 cs) k))) ANone =
+  a_sub (cross_under_def (pair_hist tsx_next s0 cs k (f0, z) (vi_const 0 z)))
+        (cross_above_def (pair_hist tsx_next s0 cs k (f0, fneg z) (vi_const 0 (fneg z)))).
+Proof. exact (tsx_cross_signal_as_coded s0 cs k). Qed.
 End C06.
 
 (** signals that are a function of the values returned at the same step: the documented rule holds in EVERY state
